@@ -120,6 +120,10 @@ def uperLenOctets (bs : Bytes) : Option Bits :=
   else if bs.length < 16384 then some (natBits 16 (bs.length + 32768) ++ bytesToBits bs)
   else none
 
+/-- the octets of the semi-constrained offset: `do { *--op = offset & 0xff; offset >>= 8; } while(offset);`
+    (the 8 octets of an `unsigned long` without the leading zero octets, one zero octet for 0) -/
+def offsetOctets (n : Nat) : Bytes := oerStripZeros (toBEn 8 n)
+
 /-- the tail of `INTEGER_encode_uper` once `ct` (possibly reset to NULL) and `value` are known -/
 def INTEGER_uper_body (ct : Option PerCt) (value : Int) (bs : Bytes) : Option Bits :=
   match ct with
@@ -128,9 +132,13 @@ def INTEGER_uper_body (ct : Option PerCt) (value : Int) (bs : Bytes) : Option Bi
       match perRebase value c.lb c.ub with
       | none => none
       | some v => some (natBits c.rangeBits.toNat v)
+    else if c.semi then
+      -- X.691 §10.7 (findings F42 / F110 repaired): `(unsigned long)value - (unsigned long)lower_bound`
+      -- as a non-negative-binary-integer in the minimum number of octets, after its length
+      uperLenOctets (offsetOctets ((value - c.lb) % 2 ^ 64).toNat)
     else if c.lb ≠ 0 then none          -- "TODO: adjust lower bound"
-    else uperLenOctets bs
-  | none => uperLenOctets bs
+    else uperLenOctets (strip bs)       -- superfluous leading octets skipped (finding F18 repaired)
+  | none => uperLenOctets (strip bs)
 
 /-- `INTEGER_encode_uper`; `none` = ASN__ENCODE_FAILED -/
 def INTEGER_encode_uper (unsigned : Bool) (ct : Option PerCt) (bs : Bytes) : Option Bits :=
@@ -244,12 +252,12 @@ def ENUMERATED_encode_oer (bs : Bytes) : Option Bytes :=
   | .ok v => NativeEnumerated_encode_oer (wordOfLong v)
   | _ => none
 
-/-- `uper_put_nsnnwn` as it is (no leading marker bit for n ≥ 64: finding F29) -/
+/-- `uper_put_nsnnwn` (with the marker bit `1` of X.691 §10.6.2 for n ≥ 64: finding F29 repaired) -/
 def uperPutNsnnwn (n : Int) : Option Bits :=
   if n ≤ 63 then (if n < 0 then none else some (natBits 7 n.toNat))
   else
     let bytes := if n < 256 then 1 else if n < 65536 then 2 else if n < 256 * 65536 then 3 else 0
-    if bytes = 0 then none else some (natBits 8 bytes ++ natBits (8 * bytes) n.toNat)
+    if bytes = 0 then none else some (true :: (natBits 8 bytes ++ natBits (8 * bytes) n.toNat))
 
 /-- position of `v` in `value2enum` (the `bsearch`) -/
 def enumIndex (m : List (Int × String)) (v : Int) : Option Nat :=
